@@ -132,13 +132,13 @@ inline Failure compareExtraction(const std::string& text, const m6::Scan& sc, co
   int prevFinish = 0;
   const auto offs = m6::cpOffsets(text);
   for (size_t i = 0; i < found.size(); ++i) {
-    const auto v = view(found[i]);
+    auto v = view(found[i]);
     const auto at = [&] { return "reference " + std::to_string(i) + " " + rng(v.start, v.finish) + " " + esc(v.spelled); };
     GLUE_CHECK(v.type != 0, "reported-invalid", at() + ": invalid reference reported");
     GLUE_CHECK(0 <= v.start && v.start < v.finish && v.finish <= sc.textCps, "range-in-text", at() + " outside the text of " + std::to_string(sc.textCps) + " code points");
     GLUE_CHECK(v.start >= prevFinish, "ranges-ordered-disjoint", at() + " starts before the previous reference ends at " + std::to_string(prevFinish));
     prevFinish = v.finish;
-    const auto occ = m6::candidateAt(text, offs, v.start, v.finish);
+    auto occ = m6::candidateAt(text, offs, v.start, v.finish);
     GLUE_CHECK(occ.has_value(), "reported-not-an-occurrence", at() + ": the code points " + rng(v.start, v.finish) + " are '" + esc(m6::cpSubstr(text, v.start, v.finish)) + "', not a @{...} occurrence");
     GLUE_CHECK(occ->p.kind != m6::Kind::Malformed, "reported-malformed", at() + ": '" + esc(occ->spelling) + "' is malformed (" + occ->p.why + ")");
     if (occ->p.kind == m6::Kind::Unspecified) {
@@ -152,8 +152,8 @@ inline Failure compareExtraction(const std::string& text, const m6::Scan& sc, co
         GLUE_CHECK(sp.empty(), "canonical-spelling", at() + ": ToString is not the canonical spelling '" + esc(occ->p.canonical()) + "': " + sp);
       }
     }
-    L.push_back(v);
-    occs.push_back(*occ);
+    L.push_back(std::move(v));
+    occs.push_back(std::move(*occ));
   }
   if (sc.unspecified) {
     expected = occs;
